@@ -306,10 +306,26 @@ class TimeStamp(TdmsType):
 class ComplexSingleFloat(TdmsType):
     size = 8
 
+    @classmethod
+    def from_bytes(cls, byte_array, endianness="<"):
+        """ Convert an array of bytes into a numpy array of data
+        """
+        array = byte_array.view()
+        array.dtype = cls.nptype.newbyteorder(endianness)
+        return array
+
 
 @tds_data_type(0x10000d, np.complex128)
 class ComplexDoubleFloat(TdmsType):
     size = 16
+
+    @classmethod
+    def from_bytes(cls, byte_array, endianness="<"):
+        """ Convert an array of bytes into a numpy array of data
+        """
+        array = byte_array.view()
+        array.dtype = cls.nptype.newbyteorder(endianness)
+        return array
 
 
 @tds_data_type(0xFFFFFFFF, None)
